@@ -188,7 +188,7 @@ PROPS = {
         "assumptions": ["join futures are awaited to completion once polled (a pending join future that is dropped and a second join polled while the first is pending are outside the generated programs: finding F6)"],
     },
     "C06": {
-        "families": [("faults", 1200, 30000), ("children", 400, 10000)],
+        "families": [("faults", 1200, 30000), ("children", 400, 10000), ("broker", 400, 8000)],
         "monitors": ["C03", "C14"],
         "theorems": ["C06_containment", "C06_dead_is_silent", "C06_seen_as_stopped"],
         "nontrivial": nt_c06,
@@ -238,9 +238,9 @@ PROPS = {
         "assumptions": ["the select! tie-break is not seeded: every outcome the implementation produced is read off its trace"],
     },
     "C04": {
-        "families": [("stop-race", 900, 25000), ("lifecycle", 300, 8000), ("handles", 200, 6000), ("faults", 300, 8000)],
+        "families": [("stop-race", 900, 25000), ("lifecycle", 300, 8000), ("handles", 200, 6000), ("faults", 300, 8000), ("timeouts", 300, 6000)],
         "monitors": ["C04", "C03"],
-        "theorems": ["C04_announce", "C04_nothing_after_stop", "C04_stop_is_a_barrier", "C04_last_drop_drains"],
+        "theorems": ["C04_announce", "C04_nothing_after_stop", "C04_stop_is_a_barrier", "C04_last_drop_drains", "C04_nothing_queued_behind_a_stop_is_handled"],
         "nontrivial": nt_c04,
         "rule": "cases generated from (family, VERIF_SEED, index): several client tasks sending, calling and stopping one actor concurrently (stop, halt, Context::stop from handlers), last-drop of every handle kind at random points, handlers with sleeps so that messages queue up behind a stop request, awaits by value and through &mut before and after termination, every failure kind; non-trivial = an await or halt resolved on an actor that handled messages and whose task ended; distinct = distinct case JSON",
         "assumptions": ["'accepted before / after the stop' is judged by real-time order on the single-threaded executor: a submission whose call returned before the stop request was issued is before it; one issued after the stop call returned is after it; concurrent ones may fall either way",
@@ -384,7 +384,7 @@ MANIFEST_TEXT = {
     },
     "C04": {
         "text": "Theorems (Coq): C04_announce (simulation, every accepted trace: an await by value or through &mut and a halt resolve only after the addressed task ended, Ok exactly when the task returned right after its last stopped(), Err otherwise), "
-                "C04_stop_is_a_barrier + C04_nothing_after_stop (a stop request leaves the queue as its head and the loop goes straight to finished()/stopped(); nothing is handled afterwards), C04_last_drop_drains (the closed-channel exit is taken only with an empty queue and no sender left). "
+                "C04_stop_is_a_barrier + C04_nothing_after_stop (a stop request leaves the queue as its head and the loop goes straight to finished()/stopped(); nothing is handled afterwards), C04_last_drop_drains (the closed-channel exit is taken only with an empty queue and no sender left), C04_nothing_queued_behind_a_stop_is_handled (over whole executions: a message queued behind a stop request is never handled, on any continuation of any length). "
                 "[partial] 'every message whose send completed before the stop is handled' and 'submissions after the stop fail' follow from FIFO (C01) and the closed mailbox in the model; as trace statements they are checked by the search acceptor and by correspondence, not stated as one theorem.",
         "note": COMMON_NOTE,
         "technique": "Rocq/Coq proof (simulation to an extracted acceptor + one-step theorems over all states) over an executable model; correspondence by differential run of model and implementation",
